@@ -44,6 +44,7 @@ func VF_C15_KeyToSlot() {
 //vf:job C15 quick VF_C15_Crc16Step
 //vf:job C15 quick VF_C15_Crc16CheckValue
 //vf:job C15 quick VF_C15_ChosenKeyInRange lr=0..5
+//vf:job C15 quick VF_C15_ChosenKeyHistory
 //vf:job C15 quick VF_C15_SlotFilterUse n=1..3
 //vf:replayE C15 VF_C15_ChosenKeyInRange
 //vf:stub C15 redis-go-cluster GetSlot (used by the checkpoint key search) is replaced by the tool's own KeyToSlot, which the first harness ties to the specification
@@ -91,6 +92,21 @@ func VF_C15_ChosenKeyInRange() {
 	slot := int(KeyToSlot(name))
 	vfAssert(slot >= lr[0] && slot <= lr[1], "chosen checkpoint key does not hash into the shard's slot range")
 	vfAssertTwin(slot < lr[0], "twin")
+}
+
+// a shard's range changes between restarts of its syncer (slots given away or received): every call
+// answers for the range it is given, whatever was asked before
+var vfHistRanges = [][2]int{{0, 16383}, {0, 8191}, {0, 1276}, {0, 100}, {5461, 10922}, {5461, 6000}}
+
+func VF_C15_ChosenKeyHistory() {
+	vfStub("github.com/vinllen/redis-go-cluster.GetSlot", func(key interface{}) (uint16, error) { return KeyToSlot(string(key.([]byte))), nil })
+	for step := 0; step < 3; step++ {
+		lr := vfHistRanges[vfPick("range", len(vfHistRanges))]
+		name := ChoseSlotInRange(CheckpointKey, lr[0], lr[1])
+		slot := int(KeyToSlot(name))
+		vfAssert(slot >= lr[0] && slot <= lr[1], "chosen checkpoint key does not hash into the range asked for (after earlier calls with other ranges)")
+	}
+	vfAssertTwin(false, "twin")
 }
 
 // full sync's slot filter input is the same slot function: keys with the same tag share the decision
